@@ -115,6 +115,7 @@ fn seq_spec(ctx: &Ctx, shards: usize, w: i64) -> SeqSpec {
         oracle: seq_oracle(),
         keys: vec![1, 2, 3],
         canon_sketch: false,
+        ghost_key: Some(ghost_key(true)),
         max_states: if quick { 80_000 } else { 3_000_000 },
         time_cap_s: if quick { 15.0 } else { 900.0 },
     }
